@@ -155,6 +155,8 @@ func init() {
 }
 
 func runC03(r *Run) {
+	descendantHashBinding(r)
+	r.CacheInventory([]string{"verifier", "vm", "vm/vm_context", "chain", "chain/account", "chain/momentum"}, cacheTriage, "a verification verdict memoised under a key that does not pin the whole block (its claimed hash, its height) lets a different block inherit it")
 	r.Alias("$b", "recv.block")
 	r.Alias("$tb", "recv.transaction.Block")
 	r.Alias("$send", "recv.momentumStore.GetAccountBlockByHash($b.FromBlockHash)")
